@@ -571,6 +571,142 @@ where
 }
 
 // ---------------------------------------------------------------------------------------------
+// f64 with special values: the documented operation order evaluated here, compared bit for bit
+// ---------------------------------------------------------------------------------------------
+
+/// Heap's algorithm exactly as documented for `heaps_permutations` (one swap between emissions,
+/// none after the last recursive call of a level).
+fn ref_heaps(k: usize, list: &mut Vec<usize>, consumer: &mut dyn FnMut(&Vec<usize>)) {
+    if k == 1 {
+        consumer(list);
+        return;
+    }
+    for i in 0..k {
+        ref_heaps(k - 1, list, consumer);
+        if i < k - 1 {
+            if k % 2 == 0 {
+                list.swap(i, k - 1);
+            } else {
+                list.swap(0, k - 1);
+            }
+        }
+    }
+}
+
+/// the Leibniz sum in the documented order: `sum = sum + signature * (((1 * a[0,p0]) * a[1,p1]) …)`
+fn ref_det<T: Elem>(n: usize, a: &[T]) -> T
+where
+    for<'a> &'a T: NumericRef<T>,
+{
+    if n == 1 {
+        return a[0].clone();
+    }
+    let mut sum = T::zero();
+    let mut even = true;
+    let mut list: Vec<usize> = (0..n).collect();
+    ref_heaps(n, &mut list, &mut |perm| {
+        let signature = if even { T::one() } else { T::zero() - T::one() };
+        let mut product = T::one();
+        for (r, c) in perm.iter().enumerate() {
+            product = product * &a[r * n + *c];
+        }
+        sum = sum.clone() + (signature * product);
+        even = !even;
+    });
+    sum
+}
+
+fn ref_minor<T: Elem>(n: usize, a: &[T], i: usize, j: usize) -> T
+where
+    for<'a> &'a T: NumericRef<T>,
+{
+    let mut sub = Vec::with_capacity((n - 1) * (n - 1));
+    for r in 0..n {
+        for c in 0..n {
+            if r != i && c != j {
+                sub.push(a[r * n + c].clone());
+            }
+        }
+    }
+    ref_det::<T>(n - 1, &sub)
+}
+
+/// the analytic inverse in the documented order: `(sign * minor) * (1 / det)`, transposed
+fn ref_inverse<T: Elem>(n: usize, a: &[T]) -> Option<Vec<T>>
+where
+    for<'a> &'a T: NumericRef<T>,
+{
+    if n == 1 {
+        if a[0] == T::zero() {
+            return None;
+        }
+        return Some(vec![T::one() / a[0].clone()]);
+    }
+    let det = ref_det::<T>(n, a);
+    if det == T::zero() {
+        return None;
+    }
+    let reciprocal = T::one() / det;
+    let mut cof = Vec::with_capacity(n * n);
+    for i in 0..n {
+        for j in 0..n {
+            let sign = if (i % 2 + j % 2) % 2 == 0 { T::one() } else { T::zero() - T::one() };
+            cof.push(sign * ref_minor::<T>(n, a, i, j));
+        }
+    }
+    let mut out = Vec::with_capacity(n * n);
+    for i in 0..n {
+        for j in 0..n {
+            out.push(cof[j * n + i].clone() * reciprocal.clone());
+        }
+    }
+    Some(out)
+}
+
+/// bit pattern of a float, all NaNs identified (payload and sign of a NaN are not specified)
+fn canon(x: f64) -> String {
+    if x.is_nan() { "nan".to_string() } else { format!("{:016x}", x.to_bits()) }
+}
+
+fn canon_opt(v: Option<Vec<f64>>) -> String {
+    match v {
+        Some(v) => format!("some({})", v.iter().map(|x| canon(*x)).collect::<Vec<_>>().join(",")),
+        None => "none".to_string(),
+    }
+}
+
+/// `*bits` questions: the implementation against the reference evaluation above
+fn answer_bits(l: &Logical<f64>, op: &str, via: &str) -> String {
+    let n = l.rows;
+    let res = catch(|| {
+        let (got, want) = match op {
+            "mdbits" => (canon_opt(matrix_det::<f64>(via, l).map(|d| vec![d])), canon_opt(Some(vec![ref_det::<f64>(n, &l.data)]))),
+            "tdbits" => (canon_opt(tensor_det::<f64>(via, l).map(|d| vec![d])), canon_opt(Some(vec![ref_det::<f64>(n, &l.data)]))),
+            "mibits" => (
+                canon_opt(matrix_inv::<f64>(via, l).map(|m| m.row_major_iter().collect())),
+                canon_opt(ref_inverse::<f64>(n, &l.data)),
+            ),
+            "tibits" => {
+                let got = match tensor_inv::<f64>(via, l) {
+                    Some(t) => {
+                        let names_kept = t.shape() == [(l.names[0], n), (l.names[1], n)];
+                        if names_kept { canon_opt(Some(t.iter().collect())) } else { format!("wrong-shape({})", show_shape(&t.shape())) }
+                    }
+                    None => "none".to_string(),
+                };
+                (got, canon_opt(ref_inverse::<f64>(n, &l.data)))
+            }
+            other => return format!("bad-op {}", other),
+        };
+        if got == want { "agree".to_string() } else { format!("differ(impl={}|ref={})", got, want) }
+    });
+    match res {
+        Ok(s) => s,
+        Err(k) => panic_str(k),
+    }
+}
+
+// ---------------------------------------------------------------------------------------------
 // runner
 // ---------------------------------------------------------------------------------------------
 
@@ -581,6 +717,8 @@ enum Case {
     I64(Logical<i64>),
     F64(Logical<f64>),
     F32(Logical<f32>),
+    /// f64 given by bit patterns (special values); answered against the in-harness reference
+    F64Bits(Logical<f64>),
 }
 
 pub struct Runner {
@@ -606,6 +744,10 @@ impl Runner {
                 "fp" => Case::Fp(Logical { names, rows, cols, data: ents.iter().map(|s| Fp::parse(s)).collect() }),
                 "rat" => Case::Rat(Logical { names, rows, cols, data: ents.iter().map(|s| Rat::parse(s)).collect() }),
                 "i64" => Case::I64(Logical { names, rows, cols, data: ents.iter().map(|s| <i64 as Elem>::parse(s)).collect() }),
+                "f64b" => Case::F64Bits(Logical {
+                    names, rows, cols,
+                    data: ents.iter().map(|s| f64::from_bits(u64::from_str_radix(s, 16).expect("hex bits"))).collect(),
+                }),
                 "f64" | "f32" => {
                     // entries are the integer base; the matrix is base · 10^scale10 · 2^scale2
                     let k10: i32 = opt_arg("scale10", toks).map(|s| s.parse().expect("scale10")).unwrap_or(0);
@@ -629,6 +771,7 @@ impl Runner {
             Case::I64(l) => answer::<i64>(l, toks[0], via),
             Case::F64(l) => answer_approx::<f64>(l, toks[0], via),
             Case::F32(l) => answer_approx::<f32>(l, toks[0], via),
+            Case::F64Bits(l) => answer_bits(l, toks[0], via),
         }
     }
 }
@@ -706,10 +849,21 @@ struct Emit<'g> {
     g: &'g mut Gen,
     /// how many `via` variants per operation (all variants are visited round-robin over cases)
     tick: usize,
+    /// dimension names of the next case, when a generator wants particular ones
+    forced_names: Option<(&'static str, &'static str)>,
 }
 
 impl<'g> Emit<'g> {
     fn names(&mut self) -> (&'static str, &'static str) {
+        if let Some(forced) = self.forced_names.take() {
+            return forced;
+        }
+        if self.g.rng.chance(1, 2) {
+            // names the library uses internally, prefixes of one another, the empty name …
+            let v = adversarial_names(&mut self.g.rng, 2);
+            self.g.count("names.adversarial");
+            return (v[0], v[1]);
+        }
         let i = self.g.rng.below(NAME_POOL.len());
         let mut j = self.g.rng.below(NAME_POOL.len() - 1);
         if j >= i {
@@ -956,10 +1110,217 @@ fn integer_cases(e: &mut Emit, max_n: usize) {
     }
 }
 
+/// structured / degenerate integer matrices of size `n` with a label each
+fn degenerate_ints(g: &mut Gen, n: usize) -> Vec<(&'static str, Vec<i128>)> {
+    let nz = |g: &mut Gen| -> i128 {
+        let v = small_int(g, 8);
+        if v == 0 { 3 } else { v }
+    };
+    let mut out: Vec<(&'static str, Vec<i128>)> = vec![];
+    let ident: Vec<i128> = (0..n * n).map(|k| if k / n == k % n { 1 } else { 0 }).collect();
+    out.push(("identity", ident.clone()));
+    out.push(("minus_identity", ident.iter().map(|x| -x).collect()));
+    out.push(("zero_matrix", vec![0; n * n]));
+    let mut diag = vec![0i128; n * n];
+    (0..n).for_each(|i| diag[i * n + i] = nz(g));
+    out.push(("diagonal", diag.clone()));
+    let mut d0 = diag.clone();
+    let z = g.rng.below(n);
+    d0[z * n + z] = 0;
+    out.push(("diagonal_with_zero", d0));
+    for upper in [true, false] {
+        let mut t = vec![0i128; n * n];
+        for i in 0..n {
+            for j in 0..n {
+                if i == j {
+                    t[i * n + j] = if g.rng.chance(1, 2) { 1 } else { -1 };
+                } else if (upper && j > i) || (!upper && j < i) {
+                    t[i * n + j] = small_int(g, 5);
+                }
+            }
+        }
+        out.push((if upper { "unit_upper_triangular" } else { "unit_lower_triangular" }, t));
+    }
+    for c in [1i128, 7, -2] {
+        out.push(("all_equal_entries", vec![c; n * n]));
+    }
+    let mut single = vec![0i128; n * n];
+    let at = g.rng.below(n * n);
+    single[at] = nz(g);
+    out.push(("single_nonzero_entry", single));
+    // zeros on the whole diagonal, yet invertible: a weighted cyclic shift
+    if n >= 2 {
+        let mut shift = vec![0i128; n * n];
+        (0..n).for_each(|i| shift[i * n + (i + 1) % n] = nz(g));
+        out.push(("zero_diagonal_invertible", shift.clone()));
+        if n >= 3 {
+            // … plus further off-diagonal entries
+            let mut more = shift.clone();
+            for i in 0..n {
+                for j in 0..n {
+                    if i != j && more[i * n + j] == 0 && g.rng.chance(1, 2) {
+                        more[i * n + j] = small_int(g, 3);
+                    }
+                }
+            }
+            out.push(("zero_diagonal_dense", more));
+        }
+    }
+    out.push(("unimodular", unimodular(g, n)));
+    let mut ji: Vec<i128> = vec![1; n * n];
+    (0..n).for_each(|i| ji[i * n + i] = 2);
+    out.push(("ones_plus_identity", ji));
+    out.push(("zero_one_entries", (0..n * n).map(|_| g.rng.below(2) as i128).collect()));
+    let rowc: Vec<i128> = (0..n).map(|_| nz(g)).collect();
+    out.push(("constant_rows", (0..n * n).map(|k| rowc[k / n]).collect()));
+    out.push(("constant_columns", (0..n * n).map(|k| rowc[k % n]).collect()));
+    if n >= 2 {
+        let base: Vec<i128> = (0..n * n).map(|_| nz(g)).collect();
+        let (r1, mut r2) = (g.rng.below(n), g.rng.below(n - 1));
+        if r2 >= r1 {
+            r2 += 1;
+        }
+        let mut m = base.clone();
+        (0..n).for_each(|j| m[r1 * n + j] = 0);
+        out.push(("zero_row", m));
+        let mut m = base.clone();
+        (0..n).for_each(|i| m[i * n + r1] = 0);
+        out.push(("zero_column", m));
+        let mut m = base.clone();
+        (0..n).for_each(|j| m[r2 * n + j] = m[r1 * n + j]);
+        out.push(("two_equal_rows", m));
+        let mut m = base.clone();
+        (0..n).for_each(|i| m[i * n + r2] = m[i * n + r1]);
+        out.push(("two_equal_columns", m));
+        let mut m = base.clone();
+        (0..n).for_each(|j| m[r2 * n + j] = 3 * m[r1 * n + j]);
+        out.push(("proportional_rows", m));
+        let mut m = base.clone();
+        (0..n).for_each(|j| m[r2 * n + j] = -m[r1 * n + j]);
+        out.push(("negated_row", m));
+        // neighbours equal along every row except one entry
+        let mut m: Vec<i128> = (0..n * n).map(|k| rowc[k / n]).collect();
+        let at = g.rng.below(n * n);
+        m[at] += 1;
+        out.push(("equal_neighbours_but_one", m));
+    }
+    out
+}
+
+fn f64_bits_case(e: &mut Emit, n: usize, vals: &[f64], kind: &str) {
+    let (a, b) = e.names();
+    let ents: Vec<String> = vals.iter().map(|x| format!("{:016x}", x.to_bits())).collect();
+    e.g.op(format!("@ f64b {}:{},{}:{} {}", a, n, b, n, ents.join(",")));
+    e.g.count("type.f64b");
+    e.g.count(&format!("shape.{}x{}", n, n));
+    e.g.count(&format!("kind.{}", kind));
+    for op in ["mdbits", "tdbits", "mibits", "tibits"] {
+        let via = if op.starts_with('m') { e.matrix_via() } else { e.tensor_via() };
+        e.g.count(&format!("via.{}.{}", &op[..1], via));
+        e.g.op(format!("{} via={}", op, via));
+    }
+}
+
+fn degenerate_cases(e: &mut Emit, max_n: usize) {
+    for n in 1..=max_n {
+        for (label, ints) in degenerate_ints(e.g, n) {
+            let kind = format!("degenerate.{}", label);
+            e.int_case("rat", n, n, &ints, &kind, n <= 4);
+            e.int_case("fp", n, n, &ints, &kind, n <= 4);
+            let vals: Vec<f64> = ints.iter().map(|&x| x as f64).collect();
+            f64_bits_case(e, n, &vals, &kind);
+        }
+    }
+}
+
+fn special_float_cases(e: &mut Emit, thorough: bool) {
+    let sub = f64::from_bits(1);
+    let specials: [(&str, f64); 12] = [
+        ("pos_zero", 0.0), ("neg_zero", -0.0), ("pos_inf", f64::INFINITY), ("neg_inf", f64::NEG_INFINITY),
+        ("nan", f64::NAN), ("min_subnormal", sub), ("neg_min_subnormal", -sub),
+        ("subnormal", f64::MIN_POSITIVE / 2.0), ("min_positive", f64::MIN_POSITIVE), ("max", f64::MAX),
+        ("one", 1.0), ("minus_one", -1.0),
+    ];
+    // 1x1: the special value alone (0.0 and -0.0 have no inverse)
+    for (name, v) in specials.iter() {
+        f64_bits_case(e, 1, &[*v], &format!("special1x1.{}", name));
+    }
+    // each special value in each position of small matrices
+    for n in 2..=3usize {
+        let mut bases: Vec<Vec<f64>> = vec![
+            (0..n * n).map(|k| if k / n == k % n { 1.0 } else { 0.0 }).collect(),
+            vec![1.0; n * n],
+        ];
+        for _ in 0..(if thorough { 4 } else { 2 }) {
+            bases.push((0..n * n).map(|_| { let v = small_int(e.g, 6); (if v == 0 { 2 } else { v }) as f64 }).collect());
+        }
+        for base in &bases {
+            for at in 0..n * n {
+                for (name, v) in specials.iter() {
+                    let mut m = base.clone();
+                    m[at] = *v;
+                    f64_bits_case(e, n, &m, &format!("special_in_position.{}", name));
+                }
+            }
+        }
+    }
+    // two special values at random positions (a zero next to an infinity is where a
+    // "skip the zero factor" shortcut shows), sizes 2..4
+    let pairs = if thorough { 400 } else { 120 };
+    for _ in 0..pairs {
+        let n = e.g.rng.range(2, 4);
+        let mut m: Vec<f64> = (0..n * n).map(|_| small_int(e.g, 4) as f64).collect();
+        let (p, mut q) = (e.g.rng.below(n * n), e.g.rng.below(n * n - 1));
+        if q >= p {
+            q += 1;
+        }
+        m[p] = specials[e.g.rng.below(4)].1; // ±0, ±inf
+        m[q] = specials[2 + e.g.rng.below(5)].1; // ±inf, NaN, subnormals
+        f64_bits_case(e, n, &m, "special_pair");
+    }
+    // ordinary full-mantissa values: ties the reference evaluation to the library on plain data
+    for n in 1..=5usize {
+        for _ in 0..(if thorough { 30 } else { 8 }) {
+            let m: Vec<f64> = (0..n * n)
+                .map(|_| (e.g.rng.next() >> 11) as f64 / (1u64 << 53) as f64 * 8.0 - 4.0)
+                .collect();
+            f64_bits_case(e, n, &m, "ordinary_f64");
+        }
+    }
+}
+
+/// adversarial dimension names: the determinant/inverse are positional whatever the names say,
+/// and the inverse carries the input's names in the input's order
+fn name_cases(e: &mut Emit) {
+    let fixed: [(&str, &str); 12] = [
+        ("column", "row"), ("row", "column"), ("c", "r"), ("r", "c"), ("j", "i"), ("rows", "row"),
+        ("row", "rows"), (EMPTY_NAME, "x"), ("x", EMPTY_NAME), ("features", "samples"), ("aa", "a"), ("z", "a"),
+    ];
+    let mut pairs: Vec<(&'static str, &'static str)> = fixed.iter().map(|(a, b)| (wire_name(a), wire_name(b))).collect();
+    for _ in 0..12 {
+        let v = adversarial_names(&mut e.g.rng, 2);
+        pairs.push((v[0], v[1]));
+    }
+    for (a, b) in pairs {
+        for n in 2..=3usize {
+            // non-symmetric, invertible
+            let ints = dominant_int(e.g, n);
+            for ty in ["rat", "fp"] {
+                e.forced_names = Some((a, b));
+                e.g.count("names.adversarial_fixed");
+                e.custom_case(ty, n, &ints, "", "adversarial_names", &["tdet", "tinv", "tcheck"], 5);
+            }
+            e.forced_names = Some((a, b));
+            let vals: Vec<f64> = ints.iter().map(|&x| x as f64 * 0.37).collect();
+            f64_bits_case(e, n, &vals, "adversarial_names");
+        }
+    }
+}
+
 pub fn gen(g: &mut Gen) {
     let thorough = g.thorough;
     let max_n = if thorough { 6 } else { 5 };
-    let mut e = Emit { g, tick: 0 };
+    let mut e = Emit { g, tick: 0, forced_names: None };
 
     // --- every permutation matrix (each exercises one Leibniz term and its parity flag) ---
     for n in 1..=max_n {
@@ -1112,6 +1473,14 @@ pub fn gen(g: &mut Gen) {
 
     // --- i64: everything is exact; inverses only of unimodular matrices (integer `1 / det`) ---
     integer_cases(&mut e, max_n);
+
+    // --- degenerate data (zeros, ones, equal neighbours, exact ±1/0 determinants) in the exact
+    //     types against the model, and the same matrices plus ±0.0/±inf/NaN/subnormals in f64
+    //     against the documented operation order evaluated in the harness, bit for bit ---
+    degenerate_cases(&mut e, max_n);
+    special_float_cases(&mut e, thorough);
+    // --- adversarial dimension names on the tensor entry points ---
+    name_cases(&mut e);
 
     // --- non-square shapes: everything is absent ---
     let shapes: Vec<(usize, usize)> = {
